@@ -11,6 +11,8 @@ static inline struct BuildEngineImpl_TaskInfo *verif_taskinfos_emplace(struct Bu
   __CPROVER_assert(self->taskInfosMutex.held, "[P:C06] taskInfos is modified only with taskInfosMutex held");
   struct BuildEngineImpl_TaskInfo *ti = malloc(sizeof(struct BuildEngineImpl_TaskInfo)); __CPROVER_assume(ti != 0);
   ti->task = task; ti->forRuleInfo = 0; ti->waitCount = 0;
+  ti->deferredScanRequests.ptr = malloc(2 * sizeof(struct BuildEngineImpl_RuleScanRequest)); __CPROVER_assume(ti->deferredScanRequests.ptr != 0);
+  ti->deferredScanRequests.len = 0; ti->deferredScanRequests.cap = 2;
   g_new_taskinfo = ti;
   return ti;
 }
@@ -22,3 +24,18 @@ static inline struct BuildEngineImpl_TaskInfo *BuildEngineImpl_getTaskInfo(struc
 /* value comparison (std::vector<uint8_t>::operator==): abstracted by a ghost answer */
 static inline _Bool vbytes_equal(const vbytes *a, vbytes b) { return g_values_equal; }
 
+
+size_t g_k;   /* ghost index (universal quantifier) */
+
+/* the two rule records a scan step can touch: the scanned rule (a) and one other rule (b); the lookup is a function of the key */
+struct BuildEngineImpl_RuleInfo *g_ri_a, *g_ri_b; uint64_t g_key_a;
+static inline struct BuildEngineImpl_RuleInfo *BuildEngineImpl_getRuleInfoForKey(struct BuildEngineImpl *self, struct KeyID k) { return k._value == g_key_a ? g_ri_a : g_ri_b; }
+/* newRuleScanRecord(): a fresh, empty record (free-list / slab allocator not modelled) */
+static inline struct BuildEngineImpl_RuleScanRecord *BuildEngineImpl_newRuleScanRecord(struct BuildEngineImpl *self) {
+  struct BuildEngineImpl_RuleScanRecord *r = malloc(sizeof(struct BuildEngineImpl_RuleScanRecord)); __CPROVER_assume(r != 0);
+  r->deferredScanRequests.ptr = malloc(2 * sizeof(struct BuildEngineImpl_RuleScanRequest)); __CPROVER_assume(r->deferredScanRequests.ptr != 0);
+  r->deferredScanRequests.len = 0; r->deferredScanRequests.cap = 2;
+  r->pausedInputRequests.ptr = malloc(2 * sizeof(struct BuildEngineImpl_TaskInputRequest)); __CPROVER_assume(r->pausedInputRequests.ptr != 0);
+  r->pausedInputRequests.len = 0; r->pausedInputRequests.cap = 2;
+  return r;
+}
